@@ -483,8 +483,10 @@ def main():
         wall_s=round(wall, 1),
         violations=len(violations),
     )
-    os.makedirs(os.path.join(ROOT, "evidence"), exist_ok=True)
-    with open(os.path.join(ROOT, "evidence", pid + ".json"), "w") as f:
+    # runs against a scratch worktree (VERIF_REPO) must not overwrite the evidence of the real tree
+    evdir = os.path.join(ROOT, "evidence") if not ALT else os.path.join(CACHE, "evidence" + ALT)
+    os.makedirs(evdir, exist_ok=True)
+    with open(os.path.join(evdir, pid + ".json"), "w") as f:
         json.dump(ev, f, indent=1, sort_keys=True)
     for l in known_lines:
         print(l)
